@@ -10,7 +10,9 @@ import Frp.Model.Host
   * `HTTPProxy.Auth` (pkg/plugin/client/http_proxy.go)
 
   Header parsing (`req.BasicAuth`, `ParseBasicAuth`: base64 + split at ':') is done by net/http /
-  encoding/base64; a request carries the *parsed* pairs.  `none` = header absent or unparsable.
+  encoding/base64; a request of THIS file carries the *parsed* pairs (`none` = header absent or
+  unparsable).  The parsing itself, from the header bytes, is modelled in Frp/Model/WebAuth.lean
+  (`parseBasicAuth`) together with the web endpoints (middleware + gorilla/mux router + handlers).
 -/
 namespace Frp
 namespace HttpAuth
